@@ -147,6 +147,7 @@ def run_child(ctx, sc, idx):
         stuck = now - last_change > NO_PROGRESS_S or (open_stops > 0 and now - last_control > IN_STOP_S)
         if stuck:
             status["hung"] = True
+            status["delivering"] = now - last_change <= NO_PROGRESS_S   # cut off because a stop stayed open, not because all went quiet
             try:
                 g = subprocess.run(["gdb", "-p", str(p.pid), "-batch", "-ex", "thread apply all bt 12"], stdout=subprocess.PIPE,
                                    stderr=subprocess.DEVNULL, timeout=60, text=True, errors="replace")
@@ -232,6 +233,19 @@ def judge(sc, events, status):
         open_stop = [c for c, (s, e) in stops.items() if s is not None and e is None]
         phase = "in-stop" if open_stop else ("at-exit" if main_return is not None else "running")
         undel = len([v for v in A if v not in D])
+        if open_stop and status.get("delivering") and sc["racers"]:
+            # the worker is alive and delivering and the stop has been open for IN_STOP_S: if the backlog is larger now than when the stop
+            # began, the stop kept queueing what the producers logged while it was in progress, faster than the sink delivers - the same
+            # defect as a stop that returns only after the producers ceased, cut off before it got there (whether or not the producers
+            # have used up their budget by now: what keeps the stop open was accepted after it began)
+            s0 = min(stops[c][0] for c in open_stop)
+            pending_at_s = len([v for v, ta in A.items() if ta < s0 and (v not in D or D[v] > s0)])
+            after = len([v for v, td in D.items() if td > s0])
+            if undel > 2 * (pending_at_s + 50) and after >= 100:
+                out.append(("C04:stop-starved-by-producers:producers-outpace-sink",
+                            "stop open for more than %.0f s with the worker delivering (%d deliveries since it began; %d of %d producers "
+                            "still logging): backlog %d at its start, %d now" % (IN_STOP_S, after, sc["racers"] - len(X), sc["racers"], pending_at_s, undel)))
+                return out, stats
         out.append(("C04:no-progress:path=%s:phase=%s:%s" % (path, phase, "backlog>0" if undel else "backlog=0"),
                     "child made no progress for %.0f s (%d accepted messages undelivered); stacks:\n%s" % (NO_PROGRESS_S, undel, status["stacks"][:2500])))
         return out, stats
@@ -248,7 +262,15 @@ def judge(sc, events, status):
         stats["during_stop"] += len(during)
         pending_at_s = len([v for v, ta in A.items() if ta < s and (v not in D or D[v] > s)])
         if sc["racers"] and len(X) >= sc["racers"] and all(x < e for x in X) and len(during) >= 20 * (pending_at_s + sc["racers"] + 50):
-            out.append(("C04:stop-starved-by-producers:%s" % ("producers-outpace-sink" if sc["racer_pause_us"] == 0 else "fair-producers"),
+            # which of the two: did the backlog grow while the stop was open (the producers were faster than the sink, whatever pause they
+            # were configured with - a loaded machine or a sanitizer build slows the sink), or did the sink keep up and the stop still wait?
+            seq = sorted([(ta, 1) for v, ta in A.items() if s < ta < e] + [(D[v], -1) for v in A if v in D and s < D[v] < e])
+            cur = peak = pending_at_s
+            for _t, dlt in seq:
+                cur += dlt
+                peak = max(peak, cur)
+            outpaced = sc["racer_pause_us"] == 0 or peak > 2 * (pending_at_s + 50)
+            out.append(("C04:stop-starved-by-producers:%s" % ("producers-outpace-sink" if outpaced else "fair-producers"),
                         "stop #%d returned only after every racing producer had stopped on its own: %d messages were accepted while it "
                         "was in progress (pending at its start: %d)" % (c, len(during), pending_at_s)))
         # synchronous delivery after the stop (until the next move to a thread)
